@@ -84,13 +84,14 @@ ObsOf(S, a, site, inp, E) ==
                THEN <<[e |-> "victim", f |-> <<L2.vic.id, L2.vic.est, L2.vic.w, L2.inc, L2.space>>]>> ELSE <<>>
       evSend == IF IsCaller(a) /\ site = "C_Send" /\ L.cmd.kind # "none"
                 THEN <<[e |-> "send", f |-> <<S.nextAck, KindCode(L.cmd.kind), L.cmd.id, L.cmd.w, L.cmd.ttl, 0, 1>>]>> ELSE <<>>
+      evRel == IF site = "K_DelUsed" THEN <<[e |-> "released", f |-> <<L.vic.id, L.vic.w>>]>> ELSE <<>>
   IN [next |-> S2.pc[a],
       narg |-> IF S2.pc[a] = "S_Sweep" THEN L2.shard ELSE IF S2.pc[a] = "K_DelKw" THEN L2.id ELSE 0,
       op |-> IF site = "C_Idle" THEN inp.op ELSE L.op,
       ret |-> E.ret,
       truth |-> <<>>,
       sync |-> TRUE, agree |-> TRUE,
-      ev |-> evRecv \o evVic \o evSend]
+      ev |-> evRecv \o evVic \o evSend \o evRel]
 
 Digest(vs) == {[prop |-> vs[i].prop, kind |-> vs[i].kind, finding |-> vs[i].finding, what |-> vs[i].what] : i \in DOMAIN vs}
 
